@@ -88,9 +88,9 @@ def handle (op : String) (args res : List String) : Option Verdict :=
       else .bad s!"Geocentric::Rotate/Unrotate: impl=({shw X},{shw Y},{shw Z}) ({shw u},{shw v},{shw w}) model=({shw rx},{shw ry},{shw rz}) ({shw ux},{shw uy},{shw uz})"
     | _, _ => .bad "parse"
   | "locfwd" => some <|
-    -- args: origin geocentric image x0 y0 z0, the nine r entries, the point's geocentric image; res: x y z
+    -- args: lat0 lon0 h0 lat lon h, then the object's state x0 y0 z0, the nine r entries, and the point's geocentric image; res: x y z
     match args.mapM pfl, res.mapM pfl with
-    | some (x0 :: y0 :: z0 :: rest), some [x, y, z] =>
+    | some (_ :: _ :: _ :: _ :: _ :: _ :: x0 :: y0 :: z0 :: rest), some [x, y, z] =>
       if rest.length != 12 then .bad "parse" else
       let O : Origin Float := ⟨x0, y0, z0, rest.take 9⟩
       let (mx, my, mz) := localForward O (rest.getD 9 0) (rest.getD 10 0) (rest.getD 11 0)
